@@ -44,6 +44,9 @@ enum St {
     For(String, usize, Vec<St>),
     Match(String, usize, Vec<St>),
     Lam(String, usize, Vec<St>),
+    /// a binder (Let / For / Match) whose DEFINING expression (initialiser / iterable / scrutinee) uses a
+    /// name — typically the very name being bound: it must resolve outside the binder
+    DefUse(String, Box<St>),
     /// match with several arms, each binding at most one name and each with its own scope
     MArms(usize, Vec<(Option<(String, usize)>, Vec<St>)>),
     /// if / else (both branches are executed once by the rendering)
@@ -214,9 +217,12 @@ impl<'a> Gen<'a> {
             }
             let s = match k {
                 0 | 1 => {
-                    let x = self.name();
+                    // half of the lets reuse a visible name; half of those use it in their own initialiser
+                    let x = if !env.is_empty() && self.rng.chance(1, 2) { env[self.rng.below(env.len() as u64) as usize].clone() } else { self.name() };
+                    let visible = env.contains(&x);
                     env.push(x.clone());
-                    St::Let(x, self.id())
+                    let st = St::Let(x.clone(), self.id());
+                    if (visible || !self.strict) && self.rng.chance(1, 2) { St::DefUse(x, Box::new(st)) } else { st }
                 }
                 2 | 3 | 4 => {
                     if !env.is_empty() && (self.strict || !self.rng.chance(1, 10)) {
@@ -262,11 +268,15 @@ impl<'a> Gen<'a> {
                     let b = self.stmts(depth + 1, env, members, 3);
                     env.truncate(mark);
                     self.ghost = vec![x.clone()];
-                    match k {
-                        8 => St::For(x, id, b),
-                        9 => St::Match(x, id, b),
-                        _ => St::Lam(x, id, b),
-                    }
+                    let visible_outside = env.contains(&x);
+                    let defuse = k != 10 && (visible_outside || !self.strict) && self.rng.chance(1, 2);
+                    let st = match k {
+                        8 => St::For(x.clone(), id, b),
+                        9 => St::Match(x.clone(), id, b),
+                        _ => St::Lam(x.clone(), id, b),
+                    };
+                    // the iterable / scrutinee mentions the name its own pattern binds
+                    if defuse && !matches!(st, St::Lam(..)) { St::DefUse(x, Box::new(st)) } else { st }
                 }
             };
             v.push(s);
@@ -365,6 +375,7 @@ impl<'a> Gen<'a> {
                     extra.push(format!("show_{k}_{i}"));
                 }
             }
+            extra.push(format!("idarr_{k}"));
             files[k].decls.extend(extra);
         }
         let mut w = World { files };
@@ -417,12 +428,12 @@ impl<'a> Gen<'a> {
                 .iter()
                 .filter_map(|i| if let Imp::As(m, p) = i { Some((p.clone(), *m)) } else { None })
                 .filter(|(p, _)| p.starts_with('p'))
-                .map(|(p, m)| (p, exported(&w, m).into_iter().filter(|(_, d)| matches!(d, RDecl::Fn(..))).map(|(n, _)| n).filter(|n| !n.starts_with("probe") && !n.starts_with("mk_") && !n.starts_with("show_")).collect()))
+                .map(|(p, m)| (p, exported(&w, m).into_iter().filter(|(_, d)| matches!(d, RDecl::Fn(..))).map(|(n, _)| n).filter(|n| !n.starts_with("probe") && !n.starts_with("mk_") && !n.starts_with("show_") && !n.starts_with("idarr_")).collect()))
                 .collect();
             let base: Vec<String> = ref_file(&w, k)
                 .supplied
                 .into_iter()
-                .filter(|(n, d)| matches!(d, RDecl::Fn(..)) && !n.starts_with("probe") && !n.starts_with("mk_") && !n.starts_with("show_"))
+                .filter(|(n, d)| matches!(d, RDecl::Fn(..)) && !n.starts_with("probe") && !n.starts_with("mk_") && !n.starts_with("show_") && !n.starts_with("idarr_"))
                 .map(|(n, _)| n)
                 .collect();
             self.visible_types = ref_file(&w, k)
@@ -579,6 +590,11 @@ fn ref_stmts(w: &World, env: &mut Vec<(String, RDecl)>, ss: &[St], out: &mut Vec
                     _ => None,
                 };
                 out.push(r);
+            }
+            // the defining expression is outside the binder's scope
+            St::DefUse(y, inner) => {
+                out.push(env.iter().rev().find(|(n, _)| n == y).map(|(_, d)| d.clone()));
+                ref_stmts(w, env, std::slice::from_ref(&**inner), out);
             }
             // sibling scopes: every arm / branch sees the environment of the whole statement only
             St::MArms(_, arms) => {
@@ -819,6 +835,41 @@ fn render_stmts(w: &World, k: usize, res: &[Option<RDecl>], ss: &[St], ind: usiz
                 render_stmts(w, k, res, body, ind + 1, src, seg, n_use, uses);
                 src.push_str(&format!("{pad}}}\n"));
             }
+            St::DefUse(y, inner) => {
+                // `y(0)` sits inside the initialiser / iterable / scrutinee of the binder
+                let lam = |id: &usize| format!("(z: int) -> println(\"L{id}\")");
+                match &**inner {
+                    St::Let(x, id) => {
+                        src.push_str(&format!("{pad}let {x} = {{\n{pad}  "));
+                        let lo = src.len();
+                        src.push_str(y);
+                        uses.push((seg, *n_use, lo, src.len()));
+                        *n_use += 1;
+                        src.push_str(&format!("(0)\n{pad}  {}\n{pad}}}\n", lam(id)));
+                    }
+                    St::For(x, id, body) => {
+                        src.push_str(&format!("{pad}for {x} in idarr_{k}([{{\n{pad}  "));
+                        let lo = src.len();
+                        src.push_str(y);
+                        uses.push((seg, *n_use, lo, src.len()));
+                        *n_use += 1;
+                        src.push_str(&format!("(0)\n{pad}  {}\n{pad}}}]) {{\n", lam(id)));
+                        render_stmts(w, k, res, body, ind + 1, src, seg, n_use, uses);
+                        src.push_str(&format!("{pad}}}\n"));
+                    }
+                    St::Match(x, id, body) => {
+                        src.push_str(&format!("{pad}match {{\n{pad}  "));
+                        let lo = src.len();
+                        src.push_str(y);
+                        uses.push((seg, *n_use, lo, src.len()));
+                        *n_use += 1;
+                        src.push_str(&format!("(0)\n{pad}  {}\n{pad}}} {{\n{pad}  {x} -> {{\n", lam(id)));
+                        render_stmts(w, k, res, body, ind + 2, src, seg, n_use, uses);
+                        src.push_str(&format!("{pad}  }}\n{pad}}}\n"));
+                    }
+                    _ => unreachable!(),
+                }
+            }
             St::For(x, id, body) => {
                 src.push_str(&format!("{pad}let arr{id}: array<int -> void> = [(z: int) -> println(\"L{id}\")]\n{pad}for {x} in arr{id} {{\n"));
                 render_stmts(w, k, res, body, ind + 1, src, seg, n_use, uses);
@@ -858,7 +909,9 @@ fn render(w: &World) -> Rendered {
             src.push('\n');
         }
         for d in &f.decls {
-            if let Some(rest) = d.strip_prefix("mk_") {
+            if d.starts_with("idarr_") {
+                src.push_str(&format!("fn {d}(a: array<int -> void>) -> array<int -> void> {{\n  a\n}}\n"));
+            } else if let Some(rest) = d.strip_prefix("mk_") {
                 // mk_<file>_<idx>_<variant>
                 let parts: Vec<&str> = rest.split('_').collect();
                 let i: usize = parts[1].parse().unwrap();
@@ -918,6 +971,10 @@ fn enc_stmts(ss: &[St], out: &mut String) {
             St::Let(x, id) => out.push_str(&format!("l{x}.{id};")),
             St::Use(x) => out.push_str(&format!("u{x};")),
             St::QUse(q, x) => out.push_str(&format!("q{q}.{x};")),
+            St::DefUse(y, inner) => {
+                out.push_str(&format!("u{y};"));
+                enc_stmts(std::slice::from_ref(&**inner), out);
+            }
             St::MArms(_, arms) => {
                 out.push_str("M<");
                 for (b, body) in arms {
@@ -1128,6 +1185,18 @@ fn strip_builtin_uses(ss: &mut Vec<St>, res: &[Option<RDecl>], idx: &mut usize) 
             }
             St::Let(..) => {}
             St::PMatch(..) | St::EUse(..) => *idx += 1,
+            St::DefUse(_, inner) => {
+                // never stripped: when the use would reach a builtin, the whole shape is replaced below
+                let bad = matches!(res.get(*idx), Some(Some(RDecl::Prelude(_))) | Some(Some(RDecl::Builtin(_))) | Some(Some(RDecl::Alias(_, _))));
+                *idx += 1;
+                let mut one = vec![(**inner).clone()];
+                strip_builtin_uses(&mut one, res, idx);
+                if bad {
+                    ss[i] = one.remove(0);
+                } else {
+                    **inner = one.remove(0);
+                }
+            }
             St::MArms(_, arms) => {
                 for (_, b) in arms.iter_mut() {
                     strip_builtin_uses(b, res, idx);
@@ -1322,6 +1391,16 @@ fn main() {
                                 earlier.push(x);
                             }
                             shapes(body, ctx);
+                        }
+                    }
+                    St::DefUse(y, inner) => {
+                        let own = match &**inner {
+                            St::Let(x, _) | St::For(x, _, _) | St::Match(x, _, _) => x == y,
+                            _ => false,
+                        };
+                        ctx.count(if own { "shape:defining-expression-uses-own-binder-name" } else { "shape:defining-expression-uses-a-name" });
+                        if let St::For(_, _, b) | St::Match(_, _, b) = &**inner {
+                            shapes(b, ctx);
                         }
                     }
                     St::IfElse(_, a, b) => {
